@@ -50,7 +50,7 @@ def make_replay(prop, groups, tier, seed):
     return path, found
 
 
-def cross_check(prop, seed, budget=150):
+def cross_check(prop, seed, budget=150, tag="runtime"):
     """thorough tier: the run-time versions of the contract clauses are evaluated on random histories of the REAL code
     (bounded: `budget` seconds).  Returns (replay path | None, ran?)."""
     searcher = os.path.join(ROOT, "rt", "search_%s.py" % prop)
@@ -66,7 +66,7 @@ def cross_check(prop, seed, budget=150):
     if not r.get("found"):
         return None, True
     os.makedirs(os.path.join(ROOT, "replays"), exist_ok=True)
-    path = os.path.join(ROOT, "replays", "%s-runtime-%d.py" % (prop, seed))
+    path = os.path.join(ROOT, "replays", "%s-%s-%d.py" % (prop, tag, seed))
     with open(path, "w") as f:
         f.write("#!/venv/bin/python\n")
         f.write('"""replay for a violation of %s found by the run-time contract monitor (no proof obligation failed)"""\n' % prop)
